@@ -159,7 +159,7 @@ def run_content(chk, F, tier):
                 if not (isinstance(r2, Agg) and r2.variant == "Err"):
                     fprobs.append("length %d: stream operation %d fails and the call returns %r" % (L, j, r2))
         key = "%s|%s" % ((b.get("impl_self") or "")[:60], kind)
-        chk.expect("B6.failure", key, not fprobs and (n_fail >= 10 or fundecided), "%s: %s" % (b["path"], "; ".join(fprobs[:3]) or "no failing run could be interpreted"),
+        chk.expect("B6.failure", key, not fprobs and (n_fail >= 10 or fundecided or undecided), "%s: %s" % (b["path"], "; ".join(fprobs[:3]) or "no failing run could be interpreted"),
                    detail={"problems": fprobs[:10]}, sample={"fn": b["path"], "failing_runs": n_fail, "not_decided": fundecided[:2]})
         chk.expect("B6.content", key, not probs, "%s: %s" % (b["path"], "; ".join(probs[:3])), detail={"problems": probs[:10]},
                    sample={"fn": b["path"], "lengths": "0..=%d" % top, "decided": n_ok, "not_decided": undecided[:2]})
